@@ -791,6 +791,10 @@ fn central_header_to_zip_file_inner<R: Read>(
 
 fn parse_extra_field(file: &mut ZipFileData) -> ZipResult<()> {
     let mut reader = io::Cursor::new(&file.extra_field);
+    // Only the first ZIP64 record is authoritative. A header re-written by `ZipWriter::new_append`
+    // carries a fresh record followed by the old entry's raw extra field, stale record included;
+    // when a real value equals the 0xFFFFFFFF sentinel the stale record would be applied on top.
+    let mut zip64_seen = false;
 
     while (reader.position() as usize) < file.extra_field.len() {
         let kind = reader.read_u16::<LittleEndian>()?;
@@ -798,7 +802,8 @@ fn parse_extra_field(file: &mut ZipFileData) -> ZipResult<()> {
         let mut len_left = len as i64;
         match kind {
             // Zip64 extended information extra field
-            0x0001 => {
+            0x0001 if !zip64_seen => {
+                zip64_seen = true;
                 if file.uncompressed_size == spec::ZIP64_BYTES_THR {
                     file.large_file = true;
                     file.uncompressed_size = reader.read_u64::<LittleEndian>()?;
